@@ -26,6 +26,9 @@ pub struct Plan {
     pub liveness: bool,
     /// max message length
     pub max_len: usize,
+    /// overload: submissions are limited by the sender's own can_send_message only, not by the receive window - the
+    /// receiver may run out of budget (a loud disconnect, which excuses delivery) but nothing may be lost silently
+    pub overload: bool,
     /// flood mode: hundreds of tiny messages per tick so that thousands of message ids are in
     /// flight / buffered between two receive calls (id-distance thresholds like 64, 256, 1024, 4096)
     pub flood: bool,
@@ -195,7 +198,11 @@ pub fn run(ctx: &Ctx, out: &mut Outcome, cfg: SimCfg, plan: &Plan, run_seed: u64
                     } else {
                         payload::pick_len(&mut r, plan.max_len.min(max_mem / 2), plan.allow_large)
                     };
-                    if !sim.within_window(c, d, ch, len) {
+                    if plan.overload {
+                        if !sim.can_send(c, d, ch, len) {
+                            continue;
+                        }
+                    } else if !sim.within_window(c, d, ch, len) {
                         out.count("submit_deferred_window");
                         continue;
                     }
